@@ -1697,6 +1697,13 @@ func (z *Decimal) SetBitsExp(mant []Word, exp int64) *Decimal {
 	z.mant = dec(mant).norm()
 	z.neg = false
 	if len(z.mant) > 0 {
+		if z.prec == 0 {
+			// zero precision: use the mantissa's digit capacity (no rounding)
+			z.prec = MaxPrec
+			if d := uint64(len(z.mant)) * _DW; d < MaxPrec {
+				z.prec = uint32(d)
+			}
+		}
 		z.setExpAndRound(exp-dnorm(z.mant)-int64(len(mant)-len(z.mant))*_DW, 0)
 	} else {
 		z.acc = Exact
